@@ -17,7 +17,10 @@ Further dimensions (each re-uses the clause-by-clause oracle; the input class ca
 configuration switch config.sort_neighborhoods in {True, False} x every face order that puts one face in position 0;
 degenerate geometry partners (zero-length edge, all vertices at one point / on one line, zero-area triangle) under uniform
 weights, whose result is a function of the combinatorics alone; a sweep over EVERY border length 3..130 (quick) / 3..260
-(thorough) on wheels, fans, zigzag strips and two-ring wheels; the same disk in another unit of length (x 2^-30, x 2^30).
+(thorough) on wheels, fans, zigzag strips and two-ring wheels; the same disk in another unit of length (x 2^-30, x 2^30);
+the argument forms of the constructor: every option omitted (alone / together), by keyword, positionally in the documented order,
+for every assignment {documented default, another value} that singles out one option, against the documented meaning of the form
+(table of documented defaults pinned in the driver, also compared with inspect.signature).
 """
 from __future__ import annotations
 import functools, math
@@ -28,7 +31,8 @@ ID = "C17"
 TECHNIQUE = ("bounded-exhaustive enumeration (flip-graph BFS = all triangulations of each point set; all labelled "
              "complexes on <= 6 vertices) x all configurations of the real TutteEmbedding vs a clause-by-clause oracle; "
              "exhaustive call histories (depth 2-3) of embeddings on one mesh object vs fresh-twin runs and snapshots; "
-             "exhaustive configuration switch x face order, degenerate-geometry partners, border-length sweep, unit-of-length partners")
+             "exhaustive configuration switch x face order, degenerate-geometry partners, border-length sweep, unit-of-length partners; "
+             "exhaustive argument forms of the constructor (omitted / keyword / positional) vs the pinned table of documented defaults")
 RULE = ("one case = (triangulated disk with its vertex numbering and orientation, geometry, boundary mode, weights); "
         "disks: every triangulation of every point set P = convex k-gon + j interior lattice points (two placement rules: "
         "nearest the centroid / inside the ears / regular-ish polygon with an inner ring) under 4 renumberings (identity, reversed, multiplicative scramble, "
@@ -42,7 +46,11 @@ RULE = ("one case = (triangulated disk with its vertex numbering and orientation
         "every face in turn; degenerate geometry: one case = (disk, kind of degeneracy), uniform weights, compared clause by clause and with "
         "the result on the regular geometry; border length: one case = (shape in wheel / fan / zigzag strip / two-ring wheel, border length n), "
         "every n up to the bound; unit of length: one case = (disk, geometry, factor 2^-30 or 2^30), compared clause by clause and with the "
-        "result in the original unit")
+        "result in the original unit; argument forms: one case = (disk, assignment of {documented default, another value} to the 5 options "
+        "boundary_mode / use_cotan / verbose / save_on_corners / custom_boundary - all default, all other, each option singled out both ways -, "
+        "set of omitted options in {none, each option at its default alone, all of them}, number 0..3 of options passed positionally, mesh by "
+        "keyword or not, started by run() or by calling the object); expectation = the fully explicit run of the configuration the documented "
+        "signature gives the form (on a fresh twin mesh, judged clause by clause), storage, flat mesh and what log() prints")
 ASSUMPTIONS = [
     "meshes are oriented manifold triangulated disks within the stated size bounds (plus grids up to 5x5); larger meshes are not explored",
     "cotangent weights are exercised only where an exactly evaluated predicate says: every edge weight >= 0 and every edge "
@@ -67,10 +75,17 @@ ASSUMPTIONS = [
     "coordinates are expected in either unit (1e-9 relative to the size of the target)",
     "border length sweep: wheels, fans, zigzag strips for every border length up to 130 (quick) / 260 (thorough), two-ring wheels up to "
     "65 / 260; longer borders are not explored",
+    "documented defaults (tables DOC_SIGNATURE / DOC_KEYWORD_ARGS, copied from the signature and the docstring of the unchanged tree: "
+    "TutteEmbedding(mesh, boundary_mode='circle', use_cotan=False, verbose=False, **kwargs) with save_on_corners=True and "
+    "custom_boundary=None taken from kwargs): an omitted option means its documented default, an option passed positionally in the "
+    "documented order means the same as passed by keyword; a given custom_boundary overrides boundary_mode (documented); verbose is "
+    "observed through the public log() method of the object (prints iff verbose); calling the object runs it and returns it "
+    "(Worker.__call__); assignments that ask for cotangent weights are exercised on the disks where these are admissible; "
+    "a signature that differs from the table is reported as a violation of C17.defaults.signature",
 ]
 BOUNDS = {
-    "quick": "TRI(P) for all k>=3, j>=0, k+j<=7 (3 placement rules, 3 renumberings; 473 triangulations); Delaunay triangulations of regular k-gons (k=3..7) + 1 or 2 interior points on a coarse lattice (1228); all labelled SURF(n<=5) + the 28 classes of SURF(6); grids 3x3..4x4; fans and wheels with border 9..16; zoo of non-disks (closed, annuli, two components, two holes); call histories on one mesh: 8 disks x all depth-2 sequences over {circle, square, custom} x {uniform, cotan where admissible} x {vertices, corners} + 'run again', 3 disks x all depth-3 sequences over {circle, square} x {vertices, corners} + 'run again' (978 histories); config.sort_neighborhoods False x every face in position 0 over TRI(P) k+j<=6 (3 renumberings), the labelled disks of SURF(n<=5) + SURF(6) classes, grids 3x3 / 3x4, fans and wheels 9..12, and True x every face in position 0 over TRI(P) k+j<=6, a quarter of the SURF disks and the same specimens; 5 kinds of degenerate geometry x uniform weights over TRI(P) k+j<=6, a quarter of the SURF disks, the specimens; EVERY border length 3..130 on wheels, fans, zigzag strips and 3..65 on two-ring wheels x circle / square / custom; unit of length 2^-30 and 2^30 over TRI(P) k+j<=6 (planar and lifted), every 8th Delaunay input, the specimens and sweep shapes of border 5 / 17 / 64",
-    "thorough": "TRI(P) for all k>=3, j>=0, k+j<=8 (3 placement rules, 4 renumberings; 1941 triangulations); Delaunay triangulations of regular k-gons + 1..3 interior lattice points (4807); all 12934 labelled SURF(6) complexes; grids up to 5x5; fans and wheels with border 9..16; zoo of non-disks; call histories on one mesh: 18 disks x all depth-2 sequences over the 4 boundary modes x {uniform, cotan where admissible} x {vertices, corners} + 'run again', and all depth-3 sequences over {circle/uniform, square/uniform, custom/cotan, custom/uniform} x {vertices, corners} + 'run again' (10466 histories); config.sort_neighborhoods in {False, True} x every face in position 0 over TRI(P) k+j<=7 (4 renumberings), the labelled disks of SURF(n<=5) + SURF(6) classes, grids up to 4x4, fans and wheels 9..16; 5 kinds of degenerate geometry x uniform weights over TRI(P) k+j<=7 (2 renumberings), the same SURF disks and specimens; EVERY border length 3..260 on wheels, fans, zigzag strips and two-ring wheels x circle / square / custom; unit of length 2^-30 and 2^30 over TRI(P) k+j<=7 (planar and lifted, 2 renumberings), every 16th Delaunay input, the specimens and sweep shapes of border 5 / 17 / 64",
+    "quick": "TRI(P) for all k>=3, j>=0, k+j<=7 (3 placement rules, 3 renumberings; 473 triangulations); Delaunay triangulations of regular k-gons (k=3..7) + 1 or 2 interior points on a coarse lattice (1228); all labelled SURF(n<=5) + the 28 classes of SURF(6); grids 3x3..4x4; fans and wheels with border 9..16; zoo of non-disks (closed, annuli, two components, two holes); call histories on one mesh: 8 disks x all depth-2 sequences over {circle, square, custom} x {uniform, cotan where admissible} x {vertices, corners} + 'run again', 3 disks x all depth-3 sequences over {circle, square} x {vertices, corners} + 'run again' (978 histories); config.sort_neighborhoods False x every face in position 0 over TRI(P) k+j<=6 (3 renumberings), the labelled disks of SURF(n<=5) + SURF(6) classes, grids 3x3 / 3x4, fans and wheels 9..12, and True x every face in position 0 over TRI(P) k+j<=6, a quarter of the SURF disks and the same specimens; 5 kinds of degenerate geometry x uniform weights over TRI(P) k+j<=6, a quarter of the SURF disks, the specimens; EVERY border length 3..130 on wheels, fans, zigzag strips and 3..65 on two-ring wheels x circle / square / custom; unit of length 2^-30 and 2^30 over TRI(P) k+j<=6 (planar and lifted), every 8th Delaunay input, the specimens and sweep shapes of border 5 / 17 / 64; argument forms of the constructor: the 8 disks of the call histories x 12 assignments (6 on the disks without admissible cotangent weights) x all call forms (omitted none / one / all x positional prefix 0..3 x mesh by keyword x run()/call; 1085 calls) + signature vs the pinned table",
+    "thorough": "TRI(P) for all k>=3, j>=0, k+j<=8 (3 placement rules, 4 renumberings; 1941 triangulations); Delaunay triangulations of regular k-gons + 1..3 interior lattice points (4807); all 12934 labelled SURF(6) complexes; grids up to 5x5; fans and wheels with border 9..16; zoo of non-disks; call histories on one mesh: 18 disks x all depth-2 sequences over the 4 boundary modes x {uniform, cotan where admissible} x {vertices, corners} + 'run again', and all depth-3 sequences over {circle/uniform, square/uniform, custom/cotan, custom/uniform} x {vertices, corners} + 'run again' (10466 histories); config.sort_neighborhoods in {False, True} x every face in position 0 over TRI(P) k+j<=7 (4 renumberings), the labelled disks of SURF(n<=5) + SURF(6) classes, grids up to 4x4, fans and wheels 9..16; 5 kinds of degenerate geometry x uniform weights over TRI(P) k+j<=7 (2 renumberings), the same SURF disks and specimens; EVERY border length 3..260 on wheels, fans, zigzag strips and two-ring wheels x circle / square / custom; unit of length 2^-30 and 2^30 over TRI(P) k+j<=7 (planar and lifted, 2 renumberings), every 16th Delaunay input, the specimens and sweep shapes of border 5 / 17 / 64; argument forms of the constructor: the 18 disks of the call histories x 12 assignments (6 on the disks without admissible cotangent weights) x all call forms (omitted none / one / all x positional prefix 0..3 x mesh by keyword x run()/call) + signature vs the pinned table",
 }
 
 SCALE = 6          # polygon of families.convex_polygon_points(k) is scaled so that it contains enough lattice points
@@ -89,7 +104,7 @@ SWEEP_MAX = {"quick": 130, "thorough": 260}
 SWEEP_SHAPES = ("wheel", "fan", "strip", "ring2")
 SWEEP_RADIUS = 1 << 16
 UNIT_EXPONENTS = (-30, 30)
-NEW_DIMENSION_FAMILIES = ("cfg", "degen", "sweep", "unit")     # run once (no warm-blackboard twin: their inputs are partners of inputs that have one)
+NEW_DIMENSION_FAMILIES = ("cfg", "degen", "sweep", "unit", "callform")     # run once (no warm-blackboard twin: their inputs are partners of inputs that have one)
 LONG_BORDER = 16     # borders longer than the ones of the enumerated families carry ':long_border' in their input class
 
 
@@ -300,7 +315,13 @@ def tasks(tier):
         out.append({"family": "zoo", "name": name})
     out += _hist_tasks(tier)
     out += _dimension_tasks(tier)
+    out += _callform_tasks(tier)
     return out
+
+
+def _callform_tasks(tier):
+    """documented defaults / call forms of the constructor: on the disks of the call histories + the comparison of the signature"""
+    return [{"family": "callform", "what": "signature"}] + [{"family": "callform", "what": "forms", "disk": spec} for spec in _hist_specs(tier)]
 
 
 # ================================================================================================ exact predicates
@@ -1321,6 +1342,250 @@ def run_sweep(rep: Report, task):
         rep.flag(f"sweep:{task['source']['shape']}:{len(F.border_loops(faces)[0])}")
 
 
+# ================================================================================================ documented defaults / call forms
+# (5) argument forms of the constructor: every option omitted (one at a time / all the omittable ones together), passed by keyword,
+# passed positionally in the documented order; the embedding started by run() or by calling the object. The expectation of every form
+# is the result of the configuration the DOCUMENTED signature gives it, taken from the fully explicit run on a fresh twin mesh that
+# check_disk judged clause by clause.
+REQUIRED = "<required>"
+CALLEE_INIT = "TutteEmbedding.__init__"
+# parameters in the DOCUMENTED order with the DOCUMENTED default of each (copied from the signature / docstring of the unchanged
+# tree; never read from the library at run time)
+DOC_SIGNATURE = [("mesh", REQUIRED), ("boundary_mode", "circle"), ("use_cotan", False), ("verbose", False)]
+# documented 'Keyword Args' (taken from **kwargs) with their documented defaults
+DOC_KEYWORD_ARGS = [("save_on_corners", True), ("custom_boundary", None)]
+OPTIONS = tuple(p for p, _ in DOC_SIGNATURE[1:]) + tuple(p for p, _ in DOC_KEYWORD_ARGS)
+N_POSITIONAL = len(DOC_SIGNATURE) - 1        # options that may be passed positionally (after the mesh)
+DOC_DEFAULT = dict(DOC_SIGNATURE[1:] + DOC_KEYWORD_ARGS)
+CUSTOM_ARRAY = "<array of target positions>"
+OTHER_VALUE = {"boundary_mode": "square", "use_cotan": True, "verbose": True, "save_on_corners": False, "custom_boundary": CUSTOM_ARRAY}
+PROBE = "c17-log-probe"
+assert set(OTHER_VALUE) == set(OPTIONS) and all(OTHER_VALUE[p] != DOC_DEFAULT[p] for p in OPTIONS)
+
+
+def check_signature(rep: Report):
+    """The library's signature against the pinned table: a default that differs from the documented one, or a documented
+    parameter that sits at another position, IS the defect (cheap guard next to the behavioural sweep of the call forms)."""
+    import inspect
+    from mouette.processing import parametrization as PARAM
+    rep.traces += 1; rep.transitions += 1
+    o = call(lambda: list(inspect.signature(PARAM.TutteEmbedding.__init__).parameters.values())[1:])
+    if not o.ok:
+        rep.violation("C17.defaults.signature", CALLEE_INIT, exc_kind(o), "signature", {"msg": o.msg})
+        return
+    params = o.value
+    got = [(p.name, REQUIRED if p.default is inspect.Parameter.empty else p.default) for p in params
+           if p.kind not in (inspect.Parameter.VAR_POSITIONAL, inspect.Parameter.VAR_KEYWORD)]
+    names = [g[0] for g in got]
+    var_kw = any(p.kind is inspect.Parameter.VAR_KEYWORD for p in params)
+    det = {"documented": [[a, repr(b)] for a, b in DOC_SIGNATURE], "documented_keyword_args": [[a, repr(b)] for a, b in DOC_KEYWORD_ARGS],
+           "library": [[a, repr(b)] for a, b in got], "library_takes_keyword_args": var_kw}
+
+    def same(gd, d):
+        return type(gd) is type(d) and gd == d
+
+    for i, (p, d) in enumerate(DOC_SIGNATURE):
+        rep.evaluations += 1
+        rep.flag(f"defaults:signature:{p}")
+        if p not in names:
+            rep.violation("C17.defaults.signature", CALLEE_INIT, "mismatch:parameter_missing", p, det)
+            continue
+        if names.index(p) != i:
+            rep.violation("C17.defaults.signature", CALLEE_INIT, "mismatch:parameter_order", p, det)
+        if [q for q in params if q.name == p][0].kind is not inspect.Parameter.POSITIONAL_OR_KEYWORD:
+            rep.violation("C17.defaults.signature", CALLEE_INIT, "mismatch:parameter_kind", p, det)
+        if not same(got[names.index(p)][1], d):
+            rep.violation("C17.defaults.signature", CALLEE_INIT, "mismatch:default_value", p, det)
+    for p, d in DOC_KEYWORD_ARGS:       # taken from **kwargs (their defaults are only visible in the behaviour) or named keyword parameters
+        rep.evaluations += 1
+        rep.flag(f"defaults:signature:{p}")
+        if p in names:
+            if not same(got[names.index(p)][1], d):
+                rep.violation("C17.defaults.signature", CALLEE_INIT, "mismatch:default_value", p, det)
+            if names.index(p) < len(DOC_SIGNATURE):
+                rep.violation("C17.defaults.signature", CALLEE_INIT, "mismatch:parameter_order", p, det)
+        elif not var_kw:
+            rep.violation("C17.defaults.signature", CALLEE_INIT, "mismatch:parameter_missing", p, det)
+    for p, d in got:
+        if p not in DOC_DEFAULT and p != "mesh" and isinstance(d, str) and d == REQUIRED:     # a new parameter without default breaks every documented call
+            rep.violation("C17.defaults.signature", CALLEE_INIT, "mismatch:new_required_parameter", p, det)
+
+
+def _meanings(k):
+    """Assignments of 'd' (documented default) / 'a' (another value) to k options: all default, all other, and each option
+    singled out both ways (it alone default / it alone different)."""
+    out = [("d",) * k, ("a",) * k]
+    for i in range(k):
+        for x, y in (("d", "a"), ("a", "d")):
+            m = tuple(x if j == i else y for j in range(k))
+            if m not in out:
+                out.append(m)
+    return out
+
+
+def _call_forms(values):
+    """All call forms of one assignment of values: (omitted options, number of options passed positionally, mesh by keyword, how the
+    embedding is started). Omitted: nothing / each option holding its documented default alone / all of those together. Positional:
+    every prefix (in the documented order) of the options that are not omitted; the rest by keyword."""
+    at_default = [p for p in OPTIONS if values[p] == DOC_DEFAULT[p] and type(values[p]) is type(DOC_DEFAULT[p])]
+    omits = [()] + [(p,) for p in at_default] + ([tuple(at_default)] if len(at_default) > 1 else [])
+    forms = []
+    for om in omits:
+        forms.append((om, 0, False, "run"))
+        npos = 0
+        while npos < N_POSITIONAL and OPTIONS[npos] not in om:
+            npos += 1
+            forms.append((om, npos, False, "run"))
+        if len(om) != 1:
+            forms.append((om, 0, True, "run"))         # the mesh by its documented name too
+            forms.append((om, 0, False, "call"))       # embedding started by calling the object (Worker.__call__) instead of run()
+    return forms
+
+
+def _invoke_form(d: Disk, values, omitted, npos, mesh_kw, start):
+    """One call form on a fresh mesh. Returns what was observed through the public API (independent of the expectation)."""
+    import io, contextlib
+    import numpy as np
+    from mouette.processing import parametrization as PARAM
+    m = F.build_surface(d.fpts, d.faces)
+    vals = dict(values)
+    if vals["custom_boundary"] is not None:
+        target = _custom_target(d, False)
+        vals["custom_boundary"] = np.array([[target[int(v)][0], target[int(v)][1]] for v in m.boundary_vertices], dtype=float)
+    args, kw = ([], {"mesh": m}) if mesh_kw else ([m], {})
+    for i, p in enumerate(OPTIONS):
+        if p in omitted:
+            continue
+        if i < npos:
+            args.append(vals[p])
+        else:
+            kw[p] = vals[p]
+    buf = io.StringIO()
+    with contextlib.redirect_stdout(buf):          # restored by the context manager
+        t = PARAM.TutteEmbedding(*args, **kw)
+        returned = t() if start == "call" else t.run()
+        t.log(PROBE)
+    obs = {"stdout": buf.getvalue(), "save_on_corners": t.save_on_corners, "returned_self": returned is t, "returned_none": returned is None}
+    soc = bool(t.save_on_corners)
+    obs["reading"] = _read(t, m, d, soc)
+    return obs
+
+
+def run_callforms(rep: Report, task):
+    """Every call form of the constructor x every assignment of {documented default, another value} of _meanings on one disk."""
+    name, ip, g = _hist_disk(task["disk"])
+    faces = [tuple(f) for f in g]
+    ipts3 = [tuple(p) if len(p) == 3 else (p[0], p[1], 0) for p in ip]
+    fpts = _floats(ipts3)
+    assert _is_disk(faces, len(ipts3))[1], name
+    d = Disk(name, ipts3, fpts, faces)
+    got = {}
+    check_disk(rep, d, MODES[:3], [("uniform", False, None, fpts), ("cotan", True, ipts3, fpts)], got)
+    twins = {cfg: o[0].value for cfg, o in got.items() if o[0].ok}      # a configuration that fails on a fresh mesh is reported by check_disk
+    rep.count("callform_disks")
+
+    def expected(values):
+        mode = "custom" if values["custom_boundary"] is not None else values["boundary_mode"]
+        return (mode, "cotan" if values["use_cotan"] else "uniform", bool(values["save_on_corners"]))
+
+    def differ(a, b):
+        return a in twins and b in twins and not _same_numbers(twins[a], twins[b])
+
+    base = expected(DOC_DEFAULT)
+    # does the value of the option matter on this disk (others at their documented defaults)? - computed from the judged twins
+    matters = {p: differ(base, expected(dict(DOC_DEFAULT, **{p: OTHER_VALUE[p]}))) for p in OPTIONS if p != "verbose"}
+    matters["save_on_corners"] = base in twins and expected(dict(DOC_DEFAULT, save_on_corners=False)) in twins and 3 * len(faces) != d.n
+    for p, yes in matters.items():
+        if yes:
+            rep.count("callform_value_matters:" + p)
+    det0 = {"mesh": d.name, "points": d.fpts, "faces": d.faces, "documented_defaults": {p: repr(v) for p, v in DOC_DEFAULT.items()}}
+    for meaning in _meanings(len(OPTIONS)):
+        values = {p: (DOC_DEFAULT[p] if mm == "d" else OTHER_VALUE[p]) for p, mm in zip(OPTIONS, meaning)}
+        cfg = expected(values)
+        if cfg not in twins:
+            rep.count("callform_assignment_dropped_" + ("cotan_not_admissible" if cfg not in got else "explicit_run_failed"))
+            continue
+        rep.count("callform_assignments")
+        reported = {}       # omitted options -> kinds of failure of the plain form (keyword, run()) with these omissions
+        for (om, npos, mesh_kw, start) in _call_forms(values):
+            plain = npos == 0 and not mesh_kw and start == "run"
+            failures = []
+
+            def fail(subcheck, callee, kind, cls, detail):
+                """one fingerprint per cause: a failure of a variant (positional / mesh by keyword / started by call) that the plain form with
+                the same omissions shows too, of any form that the fully explicit call shows too, and of a joint omission that the omission of
+                one of its options alone shows too, is the same defect and is not reported again"""
+                failures.append(kind)
+                if ((not plain and kind in reported.get(om, ())) or (om and kind in reported.get((), ()))
+                        or (len(om) > 1 and any(kind in reported.get((q,), ()) for q in om))):
+                    rep.count("callform_failure_attributed_to_simpler_form")
+                    return
+                rep.violation(subcheck, callee, kind, cls, detail)
+
+            if npos:
+                subcheck, cls = "C17.defaults.positional", f"positional_upto:{OPTIONS[npos - 1]}" + (":with_omissions" if om else "")
+            elif om:
+                subcheck, cls = "C17.defaults.omitted", (om[0] if len(om) == 1 else "several_options_together")
+            else:
+                subcheck, cls = "C17.defaults.keyword", ("mesh_by_keyword" if mesh_kw else "all_by_keyword") + (":started_by_call" if start == "call" else "")
+            if om and start == "call":
+                cls += ":started_by_call"
+            if om and mesh_kw:
+                cls += ":mesh_by_keyword"
+            detail = dict(det0, values={p: (CUSTOM_ARRAY if p == "custom_boundary" and v is not None else repr(v)) for p, v in values.items()},
+                          omitted=list(om), passed_positionally=list(OPTIONS[:npos]), mesh_by_keyword=mesh_kw, started_by=start,
+                          expected_configuration=list(cfg))
+            o = call(_invoke_form, d, values, om, npos, mesh_kw, start)
+            rep.traces += 1; rep.transitions += 1
+            rep.case(("callform", d.fpts, d.faces, meaning, om, npos, mesh_kw, start))
+            rep.outcome("callform", "ok" if o.ok else exc_kind(o))
+            if not o.ok:
+                fail(subcheck, CALLEE_INIT, exc_kind(o), cls, dict(detail, msg=o.msg))
+                if plain:
+                    reported[om] = set(failures)
+                rep.count("callforms")
+                continue
+            obs = o.value
+            rep.evaluations += 4
+            ok = True
+            if bool(obs["save_on_corners"]) != cfg[2]:
+                ok = False
+                fail(subcheck, CALLEE_INIT, "mismatch:storage", cls, dict(detail, save_on_corners=repr(obs["save_on_corners"])))
+            elif not _same_numbers(obs["reading"], twins[cfg]):
+                ok = False
+                fail(subcheck, CALLEE_INIT, "mismatch:coordinates_differ_from_the_documented_meaning", cls,
+                              dict(detail, got=_numbers(obs["reading"]), explicit_configuration_on_fresh_mesh=_numbers(twins[cfg])))
+            elif obs["reading"]["flat"] is None or twins[cfg]["flat"] is None or any(
+                    not (_close2(a[:2], b[:2], max(1.0, abs(b[0]), abs(b[1]))) and a[2] == b[2]) for a, b in zip(obs["reading"]["flat"], twins[cfg]["flat"])):
+                ok = False
+                fail(subcheck, "TutteEmbedding.flat_mesh", "mismatch:flat_mesh_differs_from_the_documented_meaning", cls,
+                              dict(detail, got=obs["reading"]["flat"], explicit_configuration_on_fresh_mesh=twins[cfg]["flat"]))
+            if (PROBE in obs["stdout"]) != bool(values["verbose"]):
+                ok = False
+                fail(subcheck, "TutteEmbedding.log", "mismatch:log_output", cls, dict(detail, stdout=obs["stdout"][:400]))
+            if start == "call" and not obs["returned_self"]:
+                ok = False
+                fail(subcheck, "TutteEmbedding.__call__", "mismatch:does_not_return_the_object", cls, detail)
+            rep.outcome("callform_log", "printed" if PROBE in obs["stdout"] else "silent")
+            if plain:
+                reported[om] = set(failures)
+            if ok:
+                rep.count("callform_ok")
+                if start == "call":
+                    rep.flag("defaults:started_by_call")
+                if mesh_kw:
+                    rep.flag("defaults:mesh_by_keyword")
+                for p in om:
+                    rep.flag(f"defaults:{'omitted_alone' if len(om) == 1 else 'omitted_together'}:{p}")
+                    if matters.get(p) or p == "verbose":
+                        rep.flag(f"defaults:omitted_where_it_matters:{p}")
+                for p in OPTIONS[:npos]:
+                    rep.flag(f"defaults:positional:{p}:{'documented_default' if values[p] == DOC_DEFAULT[p] else 'other_value'}")
+                    if matters.get(p) or p == "verbose":
+                        rep.flag(f"defaults:positional_where_it_matters:{p}")
+            rep.count("callforms")
+
+
 _SUFFIX = [""]      # appended to every input class of the task (":unsorted" when config.sort_neighborhoods is False)
 
 
@@ -1376,6 +1641,11 @@ def _run_task(task, rep: Report):
         run_unit(rep, task)
     elif fam == "sweep":
         run_sweep(rep, task)
+    elif fam == "callform":
+        if task.get("what") == "signature":
+            check_signature(rep)
+        else:
+            run_callforms(rep, task)
     else:
         p, f = _zoo(task["name"])
         if any(isinstance(c, float) and c != int(c) for q in p for c in q):
@@ -1449,6 +1719,29 @@ def finish(tier, rep: Report):
         for c in [f"unit_inputs:2^{e}"] + [f"unit_equals_original:{w}:2^{e}" for w in ("uniform", "cotan", "cotan-lift")]:
             if not rep.counters.get(c):
                 fails.append("counter is zero: " + c)
+    # documented defaults / call forms: every entry of the pinned table was compared with the signature, omitted alone and together
+    # with the others, on a disk where its value matters; every positional option was passed positionally with either value
+    for p, _ in DOC_SIGNATURE + DOC_KEYWORD_ARGS:
+        if f"defaults:signature:{p}" not in rep.flags:
+            fails.append(f"documented default never compared with the signature: {p}")
+    for p in OPTIONS:
+        for what in ("omitted_alone", "omitted_together", "omitted_where_it_matters"):
+            if f"defaults:{what}:{p}" not in rep.flags:
+                fails.append(f"coverage flag missing: defaults:{what}:{p}")
+    for p in OPTIONS[:N_POSITIONAL]:
+        for what in ("positional:" + p + ":documented_default", "positional:" + p + ":other_value", "positional_where_it_matters:" + p):
+            if "defaults:" + what not in rep.flags:
+                fails.append("coverage flag missing: defaults:" + what)
+    for f in ("defaults:started_by_call", "defaults:mesh_by_keyword"):
+        if f not in rep.flags:
+            fails.append("coverage flag missing: " + f)
+    if set(rep.outcomes.get("callform_log", ())) != {"printed", "silent"}:
+        fails.append("verbose never made a difference to what log() prints")
+    for p in OPTIONS:
+        if p != "verbose" and not rep.counters.get("callform_value_matters:" + p):
+            fails.append("no disk of the call-form sweep on which the value of the option matters: " + p)
+    if rep.counters.get("callform_assignments", 0) < len(_hist_specs(tier)) * 6 or not rep.counters.get("callform_ok"):
+        fails.append("call-form sweep: fewer assignments executed than 6 per disk (those that do not ask for cotangent weights)")
     # the exclusion of the square clause can only trigger once a side carries three border vertices
     if rep.counters.get("square_border_ok_len>=5") and not rep.counters.get("square_excluded_chord_on_one_side"):
         fails.append("square borders of length >= 5 were placed correctly but the one-side exclusion never triggered")
